@@ -91,8 +91,12 @@ Definition phys (s : fs) (p : path) : option path :=
 
 Definition lstat (s : fs) (p : path) : option kind :=
   match phys s p with Some q => lookup s q | None => None end.
+(* stat = lstat unless the entry is a symlink, which is then followed *)
 Definition stat (s : fs) (p : path) : option kind :=
-  match realpath s p with Some q => lookup s q | None => None end.
+  match lstat s p with
+  | Some (KL _) => match realpath s p with Some q => lookup s q | None => None end
+  | k => k
+  end.
 
 Definition is_link (s : fs) (p : path) : bool :=
   match lstat s p with Some (KL _) => true | _ => false end.
@@ -232,10 +236,12 @@ Fixpoint rm_each (s : fs) (ps : list path) : st_res :=
   match ps with
   | [] => (s, None)
   | p :: r =>
-      match rm_dir_or_file s p with
-      | ROk del => rm_each (rm_trees s del) r
-      | RErr e => (s, Some e)
-      end
+      if lexists s p then
+        match rm_dir_or_file s p with
+        | ROk del => rm_each (rm_trees s del) r
+        | RErr e => (s, Some e)
+        end
+      else rm_each s r      (* already removed along with a matched ancestor *)
   end.
 
 (* first loop: matching standard symlink dirs, deepest first.
